@@ -130,6 +130,11 @@ fn job(j: &Job, tier: Tier) -> Vec<(String, String, Value)> {
     }
     let mut w = common.clone();
     w.extend(["-S".to_string(), statp.display().to_string(), "-D".to_string(), ext.to_string()]);
+    // every other job finds an older, longer statistics file at the destination (it must be replaced as a whole)
+    if fp_model::util::fnv(format!("{}{:?}{}", j.label, j.mode, j.input.len()).as_bytes()) % 2 == 0 {
+        let stale = if j.toml { "# stale\n".repeat(40_000) } else { format!("{{\"stale\": \"{}\"}}", "x".repeat(300_000)) };
+        let _ = std::fs::write(&statp, stale);
+    }
     let r1 = run_tool(&scratch, &j.input, &j.mode, &w);
     if r1.crashed() || !matches!(r1.status, Some(0) | Some(9)) {
         out.push(("roundtrip:run1".into(), format!("writing run ended with {:?}/{:?}", r1.status, r1.signal), json!({})));
